@@ -1,4 +1,5 @@
 CONSTANT Family = "full"
+CONSTANT MaxLook = 0
 INIT Init
 NEXT Next
 INVARIANTS Emit Laws
